@@ -510,6 +510,18 @@ impl MorselAggregateExec {
                 _ => Vec::new(),
             })
             .collect();
+        // One bit per slot: "this SUM saw a non-NULL input". SQL says SUM over
+        // a group with no non-NULL value is NULL, which a zeroed total cannot
+        // express (AVG has its own count).
+        let seen: Vec<Vec<AtomicU64>> = kinds
+            .iter()
+            .map(|(k, _)| match k {
+                DenseAgg::SumI64 | DenseAgg::SumF64 => {
+                    (0..width.div_ceil(64)).map(|_| AtomicU64::new(0)).collect()
+                }
+                _ => Vec::new(),
+            })
+            .collect();
 
         let mut source = ParallelParquetSource::try_new_with_filter(
             self.files.clone(),
@@ -621,8 +633,10 @@ impl MorselAggregateExec {
                                         if has_nulls && arr.is_null(r) {
                                             continue;
                                         }
-                                        acc_i64[ai][(k - kmin) as usize]
-                                            .fetch_add(vals[r], Ordering::Relaxed);
+                                        let off = (k - kmin) as usize;
+                                        acc_i64[ai][off].fetch_add(vals[r], Ordering::Relaxed);
+                                        seen[ai][off >> 6]
+                                            .fetch_or(1u64 << (off & 63), Ordering::Relaxed);
                                     }
                                 }
                                 DenseAgg::SumF64 | DenseAgg::Avg => {
@@ -655,9 +669,12 @@ impl MorselAggregateExec {
                                                 Err(a) => cur = a,
                                             }
                                         }
+                                        let off = (k - kmin) as usize;
                                         if matches!(kind, DenseAgg::Avg) {
-                                            acc_i64[ai][(k - kmin) as usize]
-                                                .fetch_add(1, Ordering::Relaxed);
+                                            acc_i64[ai][off].fetch_add(1, Ordering::Relaxed);
+                                        } else {
+                                            seen[ai][off >> 6]
+                                                .fetch_or(1u64 << (off & 63), Ordering::Relaxed);
                                         }
                                     }
                                 }
@@ -715,6 +732,9 @@ impl MorselAggregateExec {
                 if keys.is_empty() {
                     return Ok(None);
                 }
+                let saw = |ai: usize, off: usize| {
+                    seen[ai][off >> 6].load(Ordering::Relaxed) & (1u64 << (off & 63)) != 0
+                };
                 let mut arrays: Vec<ArrayRef> = Vec::with_capacity(1 + kinds.len());
                 let key_array: ArrayRef = match key_dt {
                     DataType::Int32 => Arc::new(arrow::array::Int32Array::from_iter_values(
@@ -734,31 +754,31 @@ impl MorselAggregateExec {
                             })))
                         }
                         DenseAgg::SumI64 => {
-                            let it = keys
-                                .iter()
-                                .map(|&k| acc_i64[ai][(k - kmin) as usize].load(Ordering::Relaxed));
+                            let it = keys.iter().map(|&k| {
+                                let off = (k - kmin) as usize;
+                                saw(ai, off).then(|| acc_i64[ai][off].load(Ordering::Relaxed))
+                            });
                             match &out_dt[ai] {
-                                DataType::Float64 => {
-                                    Arc::new(arrow::array::Float64Array::from_iter_values(
-                                        it.map(|v| v as f64),
-                                    ))
-                                }
-                                _ => Arc::new(Int64Array::from_iter_values(it)),
+                                DataType::Float64 => Arc::new(arrow::array::Float64Array::from_iter(
+                                    it.map(|v| v.map(|v| v as f64)),
+                                )),
+                                _ => Arc::new(Int64Array::from_iter(it)),
                             }
                         }
-                        DenseAgg::SumF64 => Arc::new(arrow::array::Float64Array::from_iter_values(
+                        DenseAgg::SumF64 => Arc::new(arrow::array::Float64Array::from_iter(
                             keys.iter().map(|&k| {
-                                f64::from_bits(
-                                    acc_f64[ai][(k - kmin) as usize].load(Ordering::Relaxed),
-                                )
+                                let off = (k - kmin) as usize;
+                                saw(ai, off).then(|| {
+                                    f64::from_bits(acc_f64[ai][off].load(Ordering::Relaxed))
+                                })
                             }),
                         )),
-                        DenseAgg::Avg => Arc::new(arrow::array::Float64Array::from_iter_values(
+                        DenseAgg::Avg => Arc::new(arrow::array::Float64Array::from_iter(
                             keys.iter().map(|&k| {
                                 let off = (k - kmin) as usize;
                                 let s = f64::from_bits(acc_f64[ai][off].load(Ordering::Relaxed));
                                 let c = acc_i64[ai][off].load(Ordering::Relaxed);
-                                s / c as f64
+                                (c != 0).then(|| s / c as f64)
                             }),
                         )),
                     };
